@@ -76,6 +76,13 @@ def s12_layer_frame(chk: Check, proj: Project, w) -> None:
         chk.ob("S12", "slots:FillNode._extract_fill:capture-includes-marker-layer", fm.loc(sl[0]), okc,
                f"the capture walks `.dicts[{idx}:]`, starting AT the marker layer" if okc else
                f"the capture walks `{norm(sl[0])}`: the marker layer itself is skipped, but tags that bind with `as var` directly in the component body ({{% firstof .. as x %}}, {{% url .. as x %}}) write into exactly that layer - their bindings are dropped and the fill sees the outer variable")
+    if sl:
+        cap = next((lp for lp in ast.walk(ff) if isinstance(lp, ast.For) and any(x is sl[0] for x in ast.walk(lp.iter))), None)
+        if cap is not None:
+            jumps = [x for x in ast.walk(cap) if isinstance(x, (ast.Break, ast.Return)) or (isinstance(x, ast.Continue) and next((a for a in ancestors(x) if isinstance(a, (ast.For, ast.While))), None) is cap)]
+            chk.ob("S12", "slots:FillNode._extract_fill:capture-visits-every-layer", fm.loc(jumps[0]) if jumps else fm.loc(cap), not jumps,
+                   "the capture loop has no break / continue / return: every layer between the marker and the fill is looked at" if not jumps else
+                   f"`{short(enclosing_stmt(jumps[0]))}` cuts the capture short: scopes nested INSIDE a {{% for %}} ({{% for %}}{{% with x=.. %}}{{% fill %}}{{{{ x }}}}) are no longer captured and the fill renders without them")
     rm, rf = proj.func("slots", "_nodelist_to_slot_render_func.render_func")
     chk.analysed(fkey(rm, rf))
     iv = local_from(rf, lambda v: isinstance(v, ast.Call) and last_attr(v.func) == "get_last_index" and "_COMPONENT_CONTEXT_KEY" in norm(v))
